@@ -304,3 +304,13 @@ META = {
         "pika::util::yield_while / yield_while_timeout themselves; detail::condition_variable (C07)",
     ],
 }
+
+
+# ---- call_once event discipline (re-arm only while the caller owes the set; retry lemma), event / once_flag constructors:
+# ---- second sub-agent (after seeded change C09-4 was missed) --------------------------------------------------------------------
+exec(open("/verif/specs/C09/once_spec.py").read())
+UNITS += ONCE_UNITS
+for _k in ("trusted_base", "assumptions", "not_decided"):
+    META[_k] = list(META.get(_k, [])) + list(ONCE_META.get(_k, []))
+META["not_decided"] = [x for x in META["not_decided"] if not x.startswith("event_.reset() placement in call_once")]
+STATIC = list(globals().get("STATIC", [])) + list(ONCE_STATIC)
